@@ -11,7 +11,7 @@
    Theorems named *_refuted record genuine defects of /repo (known_findings/C14.json); *_partial hold on the stated region only. *)
 From Coq Require Import ZArith List Bool String.
 From Coq Require Import Floats.SpecFloat.
-From PV Require Import Lib.PyBase Spec.Cal Spec.Zone Spec.TdFloat Model.Duration Model.Pickle Model.PickleHistory Proofs.ZoneFacts Proofs.C09Facts Proofs.C14Facts Proofs.C14History.
+From PV Require Import Lib.PyBase Spec.Cal Spec.Zone Spec.TdFloat Model.Duration Model.Pickle Model.PickleHistory Proofs.ZoneFacts Proofs.C09Facts Proofs.C14Facts Proofs.C14History Proofs.FloatRoundTripC09.
 Import ListNotations.
 Open Scope Z_scope.
 
@@ -257,3 +257,22 @@ Theorem roundtrip_fixed_timezone_after_any_history : forall zdb before r off nam
   hr_copy (hist_run zdb before r (HvTz (TzFixed off name)) after) = 0 :: tz_obs (TzFixed off name).
 Proof. exact hist_fixed_named. Qed.
 Print Assumptions roundtrip_fixed_timezone_after_any_history.
+
+
+(* ---- C09's float premise float_split_exact_on_D9 is a THEOREM (Proofs/FloatRoundTripC09.v, through Flocq's binary64 correctness): the two deepcopy statements
+   that carry it hold unconditionally (standard-library real-number axioms, listed by Print Assumptions; the *_partial forms above depend on nothing). *)
+Theorem roundtrip_duration_deepcopy_weeks0 :
+  forall days seconds us ms mi h w years months d,
+  duration_new days seconds us ms mi h w years months = Ok d ->
+  D9 (d_N d) (YM years months * 86400) -> d_weeks d = 0 ->
+  exists d', dur_rebuild RDeep d = Ok d' /\ dur_public d' = dur_public d.
+Proof. exact (dur_deep_exact float_split_exact_on_D9_proved). Qed.
+Print Assumptions roundtrip_duration_deepcopy_weeks0.
+
+Theorem duration_deepcopy_loses_exactly_weeks :
+  forall days seconds us ms mi h w years months d d',
+  duration_new days seconds us ms mi h w years months = Ok d ->
+  D9 (d_N d) (YM years months * 86400) -> dur_rebuild RDeep d = Ok d' ->
+  d_N d' = d_N d - d_weeks d * 7 * 86400000000.
+Proof. exact (dur_deep_loses_weeks float_split_exact_on_D9_proved). Qed.
+Print Assumptions duration_deepcopy_loses_exactly_weeks.
